@@ -22,12 +22,13 @@ RULE = ('Hypothesis-generated histories over one root ResourceMap: set(path, val
         'former direct children detached, map still attached to its own parent. '
         'In ~20% of the cases a push_layer pushes 17-130 layers, re-assigning the handles of the map now and then while the first half piles up. '
         ''
-        'Some handles refine __call__ (they hand out a view of what they loaded): [] and get()() must still denote the same object. '
+        'A move operation replaces a sub-map by a new empty map, inserts some of the direct children of the replaced map again under the new one (each object still lives in one place of the tree) and then clears the REPLACED map, which is no longer part of the tree: the tree keeps its back-links, the replaced map ends up empty and detaches the children that stayed with it. Some handles refine __call__ (they hand out a view of what they loaded): [] and get()() must still denote the same object. '
         'Non-trivial = a composite-key '
         'assignment creating >= 1 intermediate map, or an assignment replacing a subtree/handle by the other '
         'kind, or a clear of a map holding layered handles or sub-maps. Distinct = sha1 of canonical JSON.')
 ASSUMPTIONS = [
-    'one map/handle object is inserted at most once (aliasing and cycles are outside the quantifier)',
+    'one map/handle object lives in at most one place of the tree at a time (aliasing and cycles are outside the '
+    'quantifier); an object may MOVE: it is inserted again after the sub-tree it lived in was replaced',
     'back-links of shadowed (lower-layer) handles are examined only when their map is cleared',
     'keys are str; split_char stays "/"',
 ]
@@ -89,7 +90,9 @@ def decode_path(p):
 
 def decode_op(t):
     sel, p = t
-    kind = ('set', 'set', 'set', 'set', 'set', 'set', 'clear', 'push', 'push', 'setsub', 'twice')[sel % 11]
+    kind = ('set', 'set', 'set', 'set', 'set', 'set', 'clear', 'push', 'push', 'setsub', 'twice', 'move')[sel % 12]
+    if kind == 'move':
+        return ['move', p % 16, (p // 16) % 64]
     if kind == 'set':
         return ['set', decode_path(p % (6 * 4096)), (p // (6 * 4096)) % 8]
     if kind == 'twice':
@@ -100,7 +103,7 @@ def decode_op(t):
 
 
 def strategy():
-    op = st.tuples(st.integers(0, 10), worldops.packed(16 * 6 * 4096 * 8)).map(decode_op)
+    op = st.tuples(st.integers(0, 11), worldops.packed(16 * 6 * 4096 * 8)).map(decode_op)
     # amp: 0, or how many layers every push_layer operation pushes (maps with dozens of handle layers, as repeated
     # population with nesting produces)
     return st.fixed_dictionaries({'ops': worldops.chunked(op, 40),
@@ -318,6 +321,59 @@ class Run:
                           parent=repr(obj.parent), key=obj.key)
         if mm.obj.parent is not own_parent or mm.obj.key != own_key:
             self.viol('clear_detached_the_map_itself', path=path)
+
+    def op_move(self, target, sel):
+        """A sub-map is replaced by a new, empty map (latest assignment wins); some of its direct children are then
+        inserted again under the new map - they MOVE, each object still lives in one place of the tree - and finally
+        the replaced map, which is no longer part of the tree, is cleared: that must not disturb the tree."""
+        cands = [(mm, path) for mm, path in self.all_maps() if path]
+        if not cands:
+            return
+        mm, path = cands[target % len(cands)]
+        parent = self.model
+        for k in path[:-1]:
+            parent = parent.maps[k]
+        name = path[-1]
+        old = mm.obj
+        children = [(k, mm.visible(k), mm.visible(k)) for k in mm.handle_names()]
+        children += [(k, sub.obj, sub) for k, sub in mm.maps.items()]
+        shadowed = [h for li, layer in enumerate(mm.layers) for k, h in layer.items() if mm.visible(k) is not h]
+        new = desper.ResourceMap()
+        newmm = MMap(new)
+        try:
+            parent.obj[name] = new
+        except Exception as exc:
+            self.viol('setitem_raised', key=name, exception=repr(exc))
+        self.model_set(parent, [name], newmm)
+        self.check()
+        moved, stay = [], list(shadowed)
+        for idx, (k, obj, node) in enumerate(children):
+            if idx == 0 or sel >> (idx % 6) & 1:
+                try:
+                    if idx % 2:
+                        parent.obj[name + '/' + k] = obj        # through the parent, composite key
+                    else:
+                        new[k] = obj
+                except Exception as exc:
+                    self.viol('setitem_raised', key=name + '/' + k, exception=repr(exc))
+                self.model_set(newmm, [k], node)
+                moved.append(obj)
+            else:
+                stay.append(obj)
+        self.check()
+        try:
+            old.clear()
+        except Exception as exc:
+            self.viol('clear_raised', exception=repr(exc), of='a map that was replaced in the tree')
+        if old.maps or len(old.handles) != 0 or any(layer for layer in old.handles.maps):
+            self.viol('clear_leaves_handles_reachable', of='a map that was replaced in the tree')
+        for obj in stay:
+            if obj.parent is not None or obj.key is not None:
+                self.viol('clear_does_not_detach_former_direct_child', of='a map that was replaced in the tree',
+                          parent=repr(obj.parent), key=obj.key)
+        self.flags['sub_map_replaced'] += 1
+        if moved:
+            self.flags['replaced_map_cleared_after_children_moved_into_the_tree'] += 1
 
     # ---- oracle -------------------------------------------------------------------------------------
     def read(self, names, expect, is_map):
